@@ -258,7 +258,7 @@ class Gen:
             op['tags'] = r.choice([[], [], ['suppress'], ['a', 'b'], ['hidden', 'suppress']])
             op['suppress'] = 'suppress' in op['tags']
             op['ttc'] = jtxt(r.choice([None, {'type': 'function', 'name': 'Exponential', 'arguments': [0.1]},
-                                       {'type': 'function', 'name': 'Enabled', 'arguments': []}]))
+                                       {'type': 'function', 'name': 'Enabled', 'arguments': []}, {}]))      # ({}: falsy, but not None)
             if t == 'defense':
                 op['defense'] = repr(r.choice([0.0, 1.0, 0.5, 0.25])); op['defOne'] = op['defense'] == '1.0'
             if t in ('exist', 'notExist'): op['exist'] = r.random() < 0.5
@@ -306,9 +306,14 @@ class Gen:
                 live_ids = [self.ids[x] for x in self.live_n]
                 reached = r.sample(self.live_n, min(len(self.live_n), r.randint(0, 3)))
                 entry = r.sample(self.live_n, min(len(self.live_n), r.randint(0, 2)))
-                aname = r.choice(['att', 'att', f'att{self.arefs}'])
-                self.ops.append({'k': 'add_attacker', 'name': aname, 'id': aid,
-                                 'entry': [self.ids[x] for x in entry], 'reached': [self.ids[x] for x in reached]})
+                # names: duplicates, names that look like the keys the file format derives for duplicates ('att:<id>'),
+                # a control character that YAML treats as a line break
+                aname = r.choice(['att', 'att', 'att', f'att{self.arefs}', f'att:{r.randint(0, 4)}', f'att:{self.next_a + 1}', 'at\x85t'])
+                rids = [self.ids[x] for x in reached]
+                eids = [self.ids[x] for x in entry]
+                if rids and r.random() < 0.2: rids.append(r.choice(rids))      # the same id listed twice
+                if eids and r.random() < 0.1: eids.append(r.choice(eids))
+                self.ops.append({'k': 'add_attacker', 'name': aname, 'id': aid, 'entry': eids, 'reached': rids})
                 if eff in {self.aids[x] for x in self.live_a}:
                     continue
                 a = self.arefs; self.arefs += 1
